@@ -573,6 +573,40 @@ def main():
     if tie_broken and not hard:
         budget = 60 if tiername == "quick" else 600
         ts = time.time(); rounds = 0
+        # (1) concretisation experiment on the real implementation (independent of the Coq model): a bit the
+        #     implementation reports as defined under undefined inputs must survive every way of resolving the
+        #     undefined input bits (C08 for memories)
+        crng = random.Random(seed * 13 + 3)
+        for m in [m for m in agg.tie if "replay_block" in m and "X" in m["replay_block"].split("\n", 1)[-1]][:12]:
+            blk = m["replay_block"].split("\n")
+            variants = []
+            for v in range(12):
+                rows = ["".join((crng.choice("01") if ch == "X" else ch) for ch in r) for r in blk[1:]]
+                variants.append("\n".join([re.sub(r"\bid=\S+", f"id=conc{v}", blk[0])] + rows))
+            of, inc = run_harness(exe, ["\n".join(blk)] + variants, "concretise", 120)
+            logs = read_log(of)
+            search_info["concretisations_run"] = search_info.get("concretisations_run", 0) + len(variants)
+            if len(logs) < 2 or logs[0]["status"] != "ok":
+                continue
+            base = [split_line(l)["outs"] for l in logs[0]["lines"] if l[0] == "c"]
+            for lg in logs[1:]:
+                if lg["status"] != "ok":
+                    continue
+                conc = [split_line(l)["outs"] for l in lg["lines"] if l[0] == "c"]
+                for t, (bo, co) in enumerate(zip(base, conc)):
+                    for k, (x, y) in enumerate(zip(bo, co)):
+                        if any(a != "X" and b != "X" and a != b for a, b in zip(x, y)):
+                            hard.append(dict(case=blk[0], cycle=t, read_port=k, expected=f"{y} (same design, undefined input bits resolved)", observed=x,
+                                             replay_block="\n".join(blk), concretised_block=explicit_block(lg, t),
+                                             what="a read data bit reported as DEFINED under partially undefined inputs contradicts the run in which the "
+                                                  "undefined input bits are given concrete values (undefined inputs must only make results undefined, never wrong)"))
+                            break
+                    if hard:
+                        break
+                if hard:
+                    break
+            if hard:
+                break
         while time.time() - ts < budget and not hard and rounds < 40:
             rng = random.Random(seed * 31 + 977 * rounds + 5)
             blocks = gen_cases(rng, 400, 300, 100, f"q{rounds}_")
